@@ -4,6 +4,7 @@ import (
 	"encoding/json"
 	"fmt"
 	"os"
+	"os/exec"
 	"path/filepath"
 	"regexp"
 	"sort"
@@ -63,6 +64,11 @@ func readJSON(path string, v interface{}) error {
 }
 
 // RunCheck runs the check of one property and returns the process exit code.
+// mutantFile, when set, puts RunCheck into mutant mode: only the functions declared in that file are
+// translated (a change inside a function can only break that function's own obligations), nothing is
+// replayed and neither evidence nor replay files are written.
+var mutantFile string
+
 func RunCheck(verifDir, repoDir, prop, tier string, seed int, overlay map[string][]byte, relock bool) int {
 	t0 := time.Now()
 	var cfgs map[string]*CheckCfg
@@ -133,6 +139,10 @@ func RunCheck(verifDir, repoDir, prop, tier string, seed int, overlay map[string
 			}
 			continue
 		}
+		if fn := eng.Prog.Fset.Position(eng.LookupFunc(key).Pos()).Filename; mutantFile != "" && fn != "" && fn != mutantFile && eng.LookupFunc(key).Synthetic == "" {
+			// (synthetic promoted-method wrappers have no position: they are always translated)
+			continue
+		}
 		vc := eng.TranslateFunc(key)
 		if vc.Err != nil {
 			anchorFail["anchor:"+key] = vc.Err.Error()
@@ -193,7 +203,7 @@ func RunCheck(verifDir, repoDir, prop, tier string, seed int, overlay map[string
 				rel = true
 			}
 		}
-		if !rel {
+		if !rel || mutantFile != "" {
 			continue
 		}
 		vc := eng.TranslateLemma(l)
@@ -233,6 +243,9 @@ func RunCheck(verifDir, repoDir, prop, tier string, seed int, overlay map[string
 		return nil
 	}
 	replayDir := filepath.Join(verifDir, "replays", prop)
+	if mutantFile != "" {
+		replayDir = tmp
+	}
 	os.MkdirAll(replayDir, 0o755)
 	nObl, nDis, nKnown := 0, 0, 0
 	bySolver := map[string]int{}
@@ -284,6 +297,12 @@ func RunCheck(verifDir, repoDir, prop, tier string, seed int, overlay map[string
 				locked = true
 			}
 		}
+		if mutantFile != "" {
+			if locked || r.Status == "sat" || r.Status == "refuted" || r.Obl.Goal == "false" {
+				cr.Violations = append(cr.Violations, fmt.Sprintf("%s (%s)", r.Obl.Name, r.Status))
+			}
+			continue
+		}
 		if !locked && r.Status != "sat" && r.Status != "refuted" && r.Obl.Goal != "false" {
 			// new code without a discharged reference: only a reproduced replay makes it a violation
 			reproduced := false
@@ -333,6 +352,18 @@ func RunCheck(verifDir, repoDir, prop, tier string, seed int, overlay map[string
 			if !isLabelled(l) {
 				continue
 			}
+			if mutantFile != "" {
+				// only the functions of the mutated file were translated
+				mine := false
+				for _, k := range funcsUnder {
+					if strings.HasPrefix(l, k+".") {
+						mine = true
+					}
+				}
+				if !mine {
+					continue
+				}
+			}
 			path := filepath.Join(replayDir, sanitize("missing:"+fn)+".replay.txt")
 			os.WriteFile(path, []byte(fmt.Sprintf("property: %s\nfailed obligation: anchor:%s\nreason: this obligation discharged on the reference tree and is no longer generated from /repo\nverdict: no-failing-input-found\n", prop, l)), 0o644)
 			cr.Violations = append(cr.Violations, fmt.Sprintf("VIOLATION property=%s replay=%s obligation=anchor:%s no-failing-input-found", prop, path, l))
@@ -380,6 +411,20 @@ func RunCheck(verifDir, repoDir, prop, tier string, seed int, overlay map[string
 	}
 	cr.Wall = time.Since(t0).Seconds()
 
+	if mutantFile != "" {
+		lastMutantFailures = cr.Violations
+		if len(cr.Violations) > 0 {
+			return 1
+		}
+		return 0
+	}
+	mutKilled, mutSurvived := []string{}, []string{}
+	if tier == "thorough" && len(cr.Violations) == 0 && !relock && len(overlay) == 0 {
+		mutKilled, mutSurvived = runMutants(verifDir, repoDir, prop, seed)
+		for _, m := range mutSurvived {
+			cr.Notes = append(cr.Notes, "NOTE mutant survived (a hole in the contracts, not a violation of /repo): "+m)
+		}
+	}
 	// output
 	for _, k := range cr.Known {
 		fmt.Println(k)
@@ -446,26 +491,28 @@ func RunCheck(verifDir, repoDir, prop, tier string, seed int, overlay map[string
 		"violations":  len(cr.Violations),
 		"assumptions": append(append([]string{}, cfg.Assumes...), tb...),
 		"coverage": map[string]interface{}{
-			"obligations":               nObl,
-			"discharged":                nDis,
-			"checker_cmd":               fmt.Sprintf("/verif/bin/govc check %s %s", prop, tier),
-			"trusted_base":              tb,
-			"functions_under_contract":  funcsUnder,
-			"by_backend":                bySolver,
-			"by_backend_seconds":        secsBySolver,
-			"solver_time_s":             solverTime,
-			"slowest":                   slowest,
-			"samples":                   samples,
+			"obligations":                nObl,
+			"discharged":                 nDis,
+			"checker_cmd":                fmt.Sprintf("/verif/bin/govc check %s %s", prop, tier),
+			"trusted_base":               tb,
+			"functions_under_contract":   funcsUnder,
+			"by_backend":                 bySolver,
+			"by_backend_seconds":         secsBySolver,
+			"solver_time_s":              solverTime,
+			"slowest":                    slowest,
+			"samples":                    samples,
 			"vacuity_probes_not_refuted": plantedOK,
-			"vacuity_probes_refuted":    vacuousErr,
-			"dead_code_reviewed":        deadNotes,
-			"abstracted":                abstracted,
-			"clauses_not_covered":       cfg.NotCovered,
-			"known_finding_obligations": nKnown,
-			"known_findings_seen":       cr.Known,
-			"unlocked_undecided":        cr.Notes,
-			"locked_obligations":        len(lock[prop]),
-			"per_obligation_timeout_s":  timeout,
+			"vacuity_probes_refuted":     vacuousErr,
+			"dead_code_reviewed":         deadNotes,
+			"abstracted":                 abstracted,
+			"clauses_not_covered":        cfg.NotCovered,
+			"known_finding_obligations":  nKnown,
+			"known_findings_seen":        cr.Known,
+			"unlocked_undecided":         cr.Notes,
+			"locked_obligations":         len(lock[prop]),
+			"per_obligation_timeout_s":   timeout,
+			"mutants_killed":             mutKilled,
+			"mutants_survived":           mutSurvived,
 		},
 	}
 	b, _ := json.MarshalIndent(ev, "", " ")
@@ -588,4 +635,81 @@ func writeReplay(path, prop string, r *Result, repoDir, verifDir string, cfg *Ch
 	sb.WriteString(out)
 	os.WriteFile(path, []byte(sb.String()), 0o644)
 	return suffix
+}
+
+var lastMutantFailures []string
+
+type mutantEntry struct {
+	ID    string   `json:"id"`
+	File  string   `json:"file"`
+	Props []string `json:"props"`
+	What  string   `json:"what"`
+}
+
+// runMutants applies every entry of /verif/mutants/index.json that names the property to a scratch copy
+// of its file (never to /repo), re-runs the property's obligations for the functions of that file through
+// the loader's overlay and reports which mutants fail at least one obligation.
+func runMutants(verifDir, repoDir, prop string, seed int) (killed, survived []string) {
+	var idx []mutantEntry
+	if err := readJSON(filepath.Join(verifDir, "mutants", "index.json"), &idx); err != nil {
+		return nil, nil
+	}
+	tmp, _ := os.MkdirTemp("", "govc-mut-")
+	defer os.RemoveAll(tmp)
+	for _, m := range idx {
+		rel := false
+		for _, p := range m.Props {
+			if p == prop {
+				rel = true
+			}
+		}
+		if !rel {
+			continue
+		}
+		target := filepath.Join(repoDir, m.File)
+		scratch := filepath.Join(tmp, "mut.go")
+		src, err := os.ReadFile(target)
+		if err != nil {
+			continue
+		}
+		os.WriteFile(scratch, src, 0o644)
+		diff, _ := os.ReadFile(filepath.Join(verifDir, "mutants", m.ID+".diff"))
+		cmd := exec.Command("patch", "-s", "--fuzz=3", scratch)
+		cmd.Stdin = strings.NewReader(string(diff))
+		if out, err := cmd.CombinedOutput(); err != nil {
+			survived = append(survived, m.ID+" (patch does not apply any more: "+strings.TrimSpace(string(out))+")")
+			continue
+		}
+		mut, _ := os.ReadFile(scratch)
+		mutantFile = target
+		rc := RunCheck(verifDir, repoDir, prop, "quick", seed, map[string][]byte{target: mut}, false)
+		mutantFile = ""
+		switch {
+		case rc == 1:
+			first := ""
+			if len(lastMutantFailures) > 0 {
+				first = lastMutantFailures[0]
+			}
+			killed = append(killed, fmt.Sprintf("%s: %s", m.ID, first))
+		case rc == 2:
+			survived = append(survived, m.ID+" (mutant does not load)")
+		default:
+			survived = append(survived, m.ID)
+		}
+	}
+	return killed, survived
+}
+
+// RunMutantsCmd runs the mutant corpus for one property and prints the outcome (development aid; the
+// thorough tier does the same and records it in the evidence).
+func RunMutantsCmd(verifDir, repoDir, prop string) int {
+	k, s := runMutants(verifDir, repoDir, prop, 0)
+	for _, m := range k {
+		fmt.Println("killed  ", m)
+	}
+	for _, m := range s {
+		fmt.Println("SURVIVED", m)
+	}
+	fmt.Printf("%s mutants: %d killed, %d survived\n", prop, len(k), len(s))
+	return 0
 }
